@@ -495,3 +495,75 @@ def open_keytable(files, opaque, p):
 @register("hyperv_file")
 def open_hvfile(files, opaque, p):
     return _TermProbe("open", p, files)
+
+
+class _VmxProbe:
+    """Builds a real encrypted VMX for the configuration (real PBKDF2 / AES-CBC / HMAC) and runs the real unlock."""
+
+    def __init__(self, p):
+        self.p = p
+
+    def unlock(self):
+        import base64
+        import hashlib
+        import hmac
+        from urllib.parse import quote
+
+        from Crypto.Cipher import AES
+
+        from dissect.hypervisor.descriptor import vmx
+
+        p = self.p
+        cipher, mac, kdf, scen = p["cipher"], p["mac"], p["kdf"], p["scenario"]
+        klen = {"AES-128": 16, "AES-192": 24, "AES-256": 32}[cipher]
+        hname, taglen = {"HMAC-SHA-1": ("sha1", 20), "HMAC-SHA-1-128": ("sha1", 16), "HMAC-SHA-256": ("sha256", 32)}[mac]
+        kh = {"PBKDF2-HMAC-SHA-1": "sha1", "PBKDF2-HMAC-SHA-256": "sha256"}[kdf]
+        good, bad = "correct horse", "wrong horse"
+        salt, rounds = b"0123456789abcdef", 10000
+        k1 = hashlib.pbkdf2_hmac(kh, good.encode(), salt, rounds, klen)
+        k2 = bytes(range(klen))
+
+        def seal(key, iv, plain):
+            padn = 16 - len(plain) % 16
+            ct = AES.new(key, AES.MODE_CBC, iv=iv).encrypt(plain + bytes([padn]) * padn)
+            return iv, ct, hmac.digest(key, plain, hname)[:taglen]
+
+        n = min(p["content_length"], 1 << 16)
+        content = ("a = \"1\"\n" * (n // 8 + 1))[:n].encode()
+        pair_plain = f"type=key:cipher={cipher}:key={quote(base64.b64encode(k2).decode())}".encode()
+        iv1, ct1, tag1 = seal(k1, b"\x11" * 16, pair_plain)
+        iv2, ct2, tag2 = seal(k2, b"\x22" * 16, content)
+
+        def flip(b, at):
+            at = at % len(b)
+            return b[:at] + bytes([b[at] ^ 0x5A]) + b[at + 1:]
+
+        at = p["tamper_at"]
+        if scen == "tamper_pair_ct":
+            ct1 = flip(ct1, at)
+        elif scen == "tamper_pair_tag":
+            tag1 = flip(tag1, at)
+        elif scen == "tamper_data_ct":
+            ct2 = flip(ct2, at)
+        elif scen == "tamper_data_tag":
+            tag2 = flip(tag2, at)
+        keysafe = ("vmware:key/list/(pair/(phrase/" + quote("id1", safe="") + "/" +
+                   quote(f"pass2key={quote(kdf, safe='')}:cipher={quote(cipher, safe='')}:rounds={rounds}:salt="
+                         f"{quote(base64.b64encode(salt).decode(), safe='')}", safe="") + "," + quote(mac, safe="") + "," +
+                   quote(base64.b64encode(iv1 + ct1 + tag1).decode(), safe="") + "))")
+        attr = {"encryption.keysafe": keysafe, "encryption.data": base64.b64encode(iv2 + ct2 + tag2).decode(),
+                "displayname": "vm"}
+        before = dict(attr)
+        v = vmx.VMX(attr)
+        try:
+            v.unlock_with_phrase(good if scen != "wrong_pass" else bad)
+        except Exception as ex:  # noqa: BLE001
+            return ("raises", v.attr == before, type(ex).__name__)
+        want = dict(before)
+        want.update(vmx._parse_dictionary(content.decode()))
+        return ("ok", v.attr == want, "")
+
+
+@register("vmx_unlock")
+def open_vmx(files, opaque, p):
+    return _VmxProbe(p)
